@@ -94,7 +94,7 @@ class RecordingTransport(suds.transport.Transport):
         if isinstance(r, Exception):
             raise r
         if r is None:
-            return None
+            return suds.transport.Reply(200, {}, b"")
         if isinstance(r, suds.transport.Reply):
             return r
         return suds.transport.Reply(200, {}, r)
